@@ -380,6 +380,39 @@ def run(tier):
                                              off, pp(d), size), file=fn.relfile, line=n.get("ln", ln))
                         res.instance("C08.R2", "%s:%s %s(%s, .., %s) into %d bytes" % (fn.name, n.get("ln", ln), n["fn"].replace("__builtin___", "").replace("_chk", ""),
                                                                                      pp(d)[:30], pp(strip(n["a"][2]))[:24], size), ok, finding=f_)
+                    elif n.get("k") == "bin" and n["op"] in ("=", "|=", "+=", "&=", "^=") and (strip(n["l"]) or {}).get("k") == "idx":
+                        lv = strip(n["l"])
+                        arr = strip(lv["b"])
+                        if arr is None or arr.get("k") != "mem":
+                            continue
+                        t = arr.get("t", "")
+                        if "[" not in t or "]" not in t:
+                            continue
+                        try:
+                            size = int(t[t.index("[") + 1:t.index("]")])
+                        except ValueError:
+                            continue
+                        ix = strip(lv["i"])
+                        if ix is not None and ix.get("k") == "un" and ix["op"] in ("post++", "post--"):
+                            ix = strip(ix["e"])
+                        if ix is not None and ix.get("k") == "int":
+                            continue          # constant index: the compiler's business
+                        n2 += 1
+                        L = ca.lin(ix) if ix is not None else None
+                        hi = INF
+                        lo = -INF
+                        if L is not None and L[0] is not None:
+                            hi = z.upper(ca.keys[L[0]]) + L[1]
+                            lo = z.lower(ca.keys[L[0]]) + L[1]
+                        ok = hi <= size - 1 and lo >= 0
+                        f_ = None
+                        if not ok:
+                            f_ = Finding(PROP, "C08.R2", fn.name, "indexed store into %s may exceed its size" % pp(arr)[:30],
+                                         "%s:%s %s(): %s[%s] is written with an index in [%s, %s] but the array has %d elements: input that makes "
+                                         "the loop run further writes past the field" % (fn.relfile, ln, fn.name, pp(arr), pp(ix)[:20],
+                                                                                      "?" if lo == -INF else int(lo), "unbounded" if hi == INF else int(hi), size),
+                                         file=fn.relfile, line=ln)
+                        res.instance("C08.R2", "%s:%s %s[%s] = .. into %d elements" % (fn.name, ln, pp(arr)[:30], pp(ix)[:16], size), ok, finding=f_)
                 ca._ln = ln
                 ca.process(z, x)
             ca.obligations = save
